@@ -43,7 +43,7 @@ fn app() -> App<()> {
         .with_stateless_route("/cors*", |_r: Request| Response::new(StatusCode::OK, "c"))
         .with_cors_config(
             "/cors*",
-            Cors::new().with_origin("https://a.example").with_method(Method::Get).with_method(Method::Post).with_header("X-H"),
+            Cors::new().with_origin("https://a.example").with_origin("https://b.example").with_method(Method::Get).with_method(Method::Post).with_header("X-H").with_header("X-I"),
         )
         .with_connection_timeout(Some(Duration::from_millis(TIMEOUT_MS)))
 }
